@@ -62,25 +62,22 @@ theorem mtf_relink_back (c1 : Array (Option (Node T))) (fr : List Nat) (A : List
     · show gt c2 b = _
       rw [gt_st_ne _ _ _ _ (fun e => hbl2.1 e.symm)]; exact hgb
 
-theorem moveToFront_wf (s : LL T) (l1 l2 : List (Nat × T)) (b : Nat) (tb : T)
+theorem moveToFront_wf_ne (s : LL T) (l1 l2 : List (Nat × T)) (b : Nat) (tb : T) (hl1ne : l1 ≠ [])
     (h : WF s (l1 ++ (b, tb) :: l2)) :
     ∃ s', LL.moveToFront s b = .ok s' ∧ WF s' ((b, tb) :: (l1 ++ l2)) ∧ s'.mem.freed = s.mem.freed ∧
       s'.mem.cells.size = s.mem.cells.size := by
   have hlen : ¬ s.len = 0 := by rw [h.len]; simp
-  cases l1 with
-  | nil =>
-    have hf : s.front = some b := h.front
-    exact ⟨s, by simp [LL.moveToFront, hlen, hf], h, rfl, rfl⟩
-  | cons px l1'' =>
-    obtain ⟨x', tx⟩ := px
-    -- name the chain before `b` once as a cons and once as a snoc
-    obtain ⟨l1, hl1⟩ : ∃ l1, l1 = (x', tx) :: l1'' := ⟨_, rfl⟩
-    rw [← hl1] at h
-    have hl1ne : l1 ≠ [] := by rw [hl1]; simp
-    obtain ⟨l1', ⟨a', ta⟩, hl1s⟩ : ∃ l1' y, l1 = l1' ++ [y] := by
-      rcases eq_nil_or_snoc l1 with e | e
-      · exact absurd e hl1ne
-      · exact e
+  -- name the chain before `b` once as a cons and once as a snoc
+  obtain ⟨⟨x', tx⟩, l1'', hl1⟩ : ∃ p r, l1 = p :: r := by
+    cases l1 with
+    | nil => exact absurd rfl hl1ne
+    | cons p r => exact ⟨p, r, rfl⟩
+  obtain ⟨l1', ⟨a', ta⟩, hl1s⟩ : ∃ l1' y, l1 = l1' ++ [y] := by
+    rcases eq_nil_or_snoc l1 with e | e
+    · exact absurd e hl1ne
+    · exact e
+  have main : ∃ s', LL.moveToFront s b = .ok s' ∧ WF s' ((b, tb) :: (l1 ++ l2)) ∧ s'.mem.freed = s.mem.freed ∧
+      s'.mem.cells.size = s.mem.cells.size := by
     -- distinctness facts
     have hnd := h.nodup
     simp only [addrs, List.map_append, List.map_cons] at hnd
@@ -207,5 +204,17 @@ theorem moveToFront_wf (s : LL T) (l1 l2 : List (Nat × T)) (b : Nat) (tb : T)
         · exact Or.inr (Or.inl ha)
         · exact Or.inl ha
         · exact Or.inr (Or.inr ha)
+  exact main
+
+theorem moveToFront_wf (s : LL T) (l1 l2 : List (Nat × T)) (b : Nat) (tb : T)
+    (h : WF s (l1 ++ (b, tb) :: l2)) :
+    ∃ s', LL.moveToFront s b = .ok s' ∧ WF s' ((b, tb) :: (l1 ++ l2)) ∧ s'.mem.freed = s.mem.freed ∧
+      s'.mem.cells.size = s.mem.cells.size := by
+  cases l1 with
+  | nil =>
+    have hlen : ¬ s.len = 0 := by rw [h.len]; simp
+    have hf : s.front = some b := h.front
+    exact ⟨s, by simp [LL.moveToFront, hlen, hf], h, rfl, rfl⟩
+  | cons px l1'' => exact moveToFront_wf_ne s (px :: l1'') l2 b tb (by simp) h
 
 end Tbx.LruL1
